@@ -106,11 +106,11 @@ def _cfg_oracle(args, obs):
 def c11_cfg(t: P2, p: int, rkind: int, d: D4, rs: int, rf: int, rsym: int) -> bool:
     """
     pre: pinned(p=p, h0=t[0], l0=t[1], s0=t[2], rkind=rkind, rsym=rsym, rs=rs, rf=rf, d0=d[0])
-    pre: 0 <= p <= 2 and 0 <= rkind < 4 and 0 <= rsym < 3 and 0 <= rf < 4
+    pre: ((0 <= p) & (p <= 2)) & ((0 <= rkind) & (rkind < 4)) & ((0 <= rsym) & (rsym < 3)) & ((0 <= rf) & (rf < 4))
     pre: cfg_canonical(t, p, 2, 2, 2)
-    pre: (rkind != 0) or (all(0 <= d[i] <= 2 for i in range(4)) and 0 <= rs <= 2)
+    pre: (rkind != 0) or (enc.in_range(d, 3) and 0 <= rs <= 2)
     pre: (rkind not in (1, 2)) or (0 <= d[0] <= 12 and 0 <= d[1] <= 12 and d[0] <= d[1] and d[2] == 0 and d[3] == 0 and 0 <= rs < 4)
-    pre: (rkind != 3) or (all(0 <= d[i] < 8 for i in range(3)) and d[3] == 0 and 1 <= rs <= 3 and rf == 0)
+    pre: (rkind != 3) or (enc.in_range(d, 8) and d[3] == 0 and 1 <= rs <= 3 and rf == 0)
     post: _
     """
     raw = (t, p, rkind, d, rs, rf, rsym)
@@ -154,12 +154,12 @@ def _pda_oracle(args, obs):
 def c11_pda(t: T10, m: int, finals: int, rkind: int, d: D4, rs: int, rf: int, rsym: int) -> bool:
     """
     pre: pinned(m=m, finals=finals, i0=t[1], c0=t[4], rkind=rkind, rsym=rsym, rs=rs, rf=rf, d0=d[0])
-    pre: 1 <= m <= 2 and 0 <= finals < 4 and 0 <= rkind < 4 and 0 <= rsym < 3 and 0 <= rf < 4
+    pre: ((1 <= m) & (m <= 2)) & ((0 <= finals) & (finals < 4)) & ((0 <= rkind) & (rkind < 4)) & ((0 <= rsym) & (rsym < 3)) & ((0 <= rf) & (rf < 4))
     pre: pda_canonical(t, m, 2, 2)
-    pre: t[0] == 0 and t[2] == 0
-    pre: (rkind != 0) or (all(0 <= d[i] <= 2 for i in range(4)) and 0 <= rs <= 2)
+    pre: (t[0] == 0) & (t[2] == 0)
+    pre: (rkind != 0) or (enc.in_range(d, 3) and 0 <= rs <= 2)
     pre: (rkind not in (1, 2)) or (0 <= d[0] <= 12 and 0 <= d[1] <= 12 and d[0] <= d[1] and d[2] == 0 and d[3] == 0 and 0 <= rs < 4)
-    pre: (rkind != 3) or (all(0 <= d[i] < 8 for i in range(3)) and d[3] == 0 and 1 <= rs <= 3 and rf == 0)
+    pre: (rkind != 3) or (enc.in_range(d, 8) and d[3] == 0 and 1 <= rs <= 3 and rf == 0)
     post: _
     """
     raw = (t, m, finals, rkind, d, rs, rf, rsym)
